@@ -39,6 +39,9 @@ def value_to_literal(val: object, loc):
             return _rational_literal(val.as_rational(), loc)
         case float() if not math.isfinite(val):
             return None
+        case float() if val == 0 and math.copysign(1.0, val) < 0:
+            # negative zero has no `Fraction` form; emit a signed literal
+            return Decnum('-0.0', loc)
         case int() | float():
             return _rational_literal(Fraction(val), loc)
         case Fraction():
